@@ -121,6 +121,12 @@ func c10(c *Ctx) {
 	lt := core.AnyFact(func(f core.Fact) bool {
 		return core.CmpFact(f, func(op token.Token, x, y ssa.Value) bool {
 			k, isC := core.ConstInt(y)
+			if !isC && isLookupField(x, "queries") && (op == token.LSS || op == token.LEQ) {
+				// the bound as a setting: every value it can take is within 1..3
+				if rg := p.RangeOf(y, nil); rg.HasHi && rg.HasLo && rg.Lo >= 1 && ((op == token.LSS && rg.Hi <= float64(alpha)) || (op == token.LEQ && rg.Hi <= float64(alpha-1))) {
+					return true
+				}
+			}
 			return isC && isLookupField(x, "queries") && ((op == token.LSS && k == alpha) || (op == token.LEQ && k == alpha-1))
 		})
 	})
@@ -129,8 +135,22 @@ func c10(c *Ctx) {
 	// increment in the same block as the spawn
 	{
 		ok := false
+		// paired with the spawn: in its block, or such that the one is never executed without the
+		// other (a metrics block may sit between the two)
+		paired := func(st *ssa.Store) bool {
+			if st.Block() == spawn.Block() {
+				return true
+			}
+			isSpawn := func(in ssa.Instruction) bool { return in == ssa.Instruction(spawn) }
+			isInc := func(in ssa.Instruction) bool { return in == ssa.Instruction(st) }
+			if st.Parent() != spawn.Parent() {
+				return false
+			}
+			return (core.MustPassAfter(st, isSpawn) == nil && core.MustPassBefore(spawn, isInc) == nil) ||
+				(core.MustPassAfter(spawn, isInc) == nil && core.MustPassBefore(st, isSpawn) == nil)
+		}
 		for _, st := range storesToLookupField(SQ, "queries") {
-			if st.Block() != spawn.Block() {
+			if !paired(st) {
 				continue
 			}
 			if bo, isBo := st.Val.(*ssa.BinOp); isBo && bo.Op == token.ADD && isLookupField(bo.X, "queries") {
@@ -144,7 +164,7 @@ func c10(c *Ctx) {
 		for _, fn := range p.ModuleFuncs() {
 			for _, st := range storesToLookupField(fn, "queries") {
 				bo, isBo := st.Val.(*ssa.BinOp)
-				if isBo && bo.Op == token.ADD && st.Block() != spawn.Block() {
+				if isBo && bo.Op == token.ADD && !paired(st) {
 					r.Fail("R2.alpha-bound", core.FuncName(fn)+" stray-increment", p.Pos(st.Pos()), "the in-flight counter is incremented away from the spawn")
 				}
 			}
@@ -742,4 +762,5 @@ func c10(c *Ctx) {
 			r.Check(w == nil, "R6.ends-when-drained", core.FuncName(fn)+" ends-only-when-step-ended", p.Pos(fn.Pos()), "the lookup ends only when the spawn step reported no queries in flight", "advance can end the lookup although the spawn step did not: "+p.PathString(w))
 		}
 	}
+	errorsExamined(c, "R7.errors-examined", "lookups", []string{"portalwire"}, "(*portalwire.lookup).", ".ContentLookup", ".contentLookupWorker", ".lookupWorker", ".lookupDistances")
 }
